@@ -24,37 +24,26 @@ renamed local variable does not. -/
 
 theorem anchors_ok : Gen.C06.anchorsOk = true := by decide
 
-/-- `angular_distance`: ndarray inputs go through `from_euler(convention, …, degrees)`, the `c_symmetry > 1` block is
-the only statement between the dispatch and `as_quat`; a shape mismatch prints and returns `None`; then
-`2·arccos(min(|q1·q2|, 1))` in degrees, `dist = 1 − (q1·q2)²` snapped below 1e-7, returned in this order -/
+/-- `angular_distance`, TRANSLATED (no statement dump: temporaries, their names and the order of independent statements are
+free): signature and defaults; per argument the `isinstance` dispatch (an ndarray goes through `from_euler(convention, ·, degrees)`,
+anything else is used as a `Rotation`); the two returned row-level formulas as terms the model evaluates — `2·arccos(min(|dot|, 1))`
+in degrees and `1 − dot²` snapped to 0 below 1e-7, `dot` being `np.sum(q1 * q2, axis=1)`, one number per pair —; and the glue:
+the shape test that prints and returns `None`, `np.array(as_quat(), ndmin=2)`, the `c_symmetry > 1` block as the only other thing -/
 theorem ang_expr_documented :
-    Gen.C06.bodyAngular = ["def angular_distance(input_rot1, input_rot2, convention='zxz', degrees=True, c_symmetry=1)",
-      "if isinstance(input_rot1, np.ndarray):",
-      "| v0 = srot.from_euler(convention, input_rot1, degrees=degrees)",
-      "else:",
-      "| v0 = input_rot1",
-      "if isinstance(input_rot2, np.ndarray):",
-      "| v1 = srot.from_euler(convention, input_rot2, degrees=degrees)",
-      "else:",
-      "| v1 = input_rot2",
-      "if c_symmetry > 1:",
-      "| v2 = v0.as_euler(convention, degrees=degrees)",
-      "| v3 = v1.as_euler(convention, degrees=degrees)",
-      "| v4 = 360.0 / c_symmetry",
-      "| v2[:, 0] = np.mod(v2[:, 0], v4)",
-      "| v3[:, 0] = np.mod(v3[:, 0], v4)",
-      "| v0 = srot.from_euler(convention, v2, degrees=degrees)",
-      "| v1 = srot.from_euler(convention, v3, degrees=degrees)",
-      "v5 = np.array(v0.as_quat(), ndmin=2)",
-      "v6 = np.array(v1.as_quat(), ndmin=2)",
-      "if v5.shape != v6.shape:",
-      "| print('The size of input rotations differ!!!')",
-      "| return",
-      "v7 = np.degrees(2 * np.arccos(np.minimum(np.abs(np.sum(v5 * v6, axis=1)), 1.0)))",
-      "v7 = v7.astype(float)",
-      "v8 = 1 - np.power(np.sum(v5 * v6, 1), 2)",
-      "v8[v8 < 1e-07] = 0",
-      "return (v7, v8)"] := by decide
+    Gen.C06.angHeader = "def angular_distance(input_rot1, input_rot2, convention='zxz', degrees=True, c_symmetry=1)"
+    ∧ Gen.C06.angInputs = [[("np.ndarray", "srot.from_euler(convention, <arg>, degrees=degrees)"), ("*", "<arg>")],
+                           [("np.ndarray", "srot.from_euler(convention, <arg>, degrees=degrees)"), ("*", "<arg>")]]
+    ∧ Gen.C06.angExpr = .deg (.mul (.lit 2 1) (.acos (.min (.abs (.var "dot")) (.lit 1 1))))
+    ∧ Gen.C06.dist2Expr = .iteLt (.sub (.lit 1 1) (.mul (.var "dot") (.var "dot"))) (.lit 1 10000000) (.lit 0 1)
+                            (.sub (.lit 1 1) (.mul (.var "dot") (.var "dot")))
+    ∧ Gen.C06.angSkeleton = ["exit: seq(print(<msg>), None) if <Q1>.shape != <Q2>.shape",
+      "Q1 = np.array(<R>.as_quat(), ndmin=2)",
+      "Q2 = np.array(<R>.as_quat(), ndmin=2)",
+      "R = <SYM> if c_symmetry > 1 else <IN>",
+      "SYM1 = srot.from_euler(convention, setitem(<IN>.as_euler(convention, degrees=degrees), (:, 0), np.mod(<IN>.as_euler(convention, degrees=degrees)[:, 0], 360.0 / c_symmetry)), degrees=degrees)",
+      "SYM2 = srot.from_euler(convention, setitem(<IN>.as_euler(convention, degrees=degrees), (:, 0), np.mod(<IN>.as_euler(convention, degrees=degrees)[:, 0], 360.0 / c_symmetry)), degrees=degrees)",
+      "dot = np.sum(<Q1> * <Q2>, axis=1)",
+      "return (<E angExpr>, <E dist2Expr>)"] := ⟨rfl, rfl, rfl, rfl, rfl⟩
 
 /-- `cone_distance`: normalised images of (0,0,1), clamped dot product, arccos in degrees — and nothing else -/
 theorem cone_expr_documented :
@@ -88,15 +77,13 @@ theorem inplane_expr_documented :
       "return v3"]
     ∧ Gen.C06.angleTolNum = 1 ∧ Gen.C06.angleTolDen = 100000000000 := by decide
 
-/-- `euler_angles_to_normals` divides every row by ITS OWN norm (`axis=1, keepdims=True`) of the z-axis image that
-`visualize_angles(angles, plot_rotations=False)` → `visualize_rotations` computes from `from_euler('zxz', degrees=True)`
-applied to `(0, 0, radius)` -/
+/-- `euler_angles_to_normals`, TRANSLATED: the batch `visualize_angles(angles, plot_rotations=False)` is divided row by row by ITS OWN
+norm (mode `"row"`: `np.linalg.norm(…, axis=1, keepdims=True)` or `…axis=1)[:, np.newaxis]`; `"all"` would be the Frobenius norm of defect
+D06); `visualize_angles` → `visualize_rotations` compute the image of `(0, 0, radius)` under `from_euler('zxz', degrees=True)` -/
 theorem normals_expr_documented :
-    Gen.C06.bodyNormals = ["def euler_angles_to_normals(angles)",
-      "v0 = visualize_angles(angles, plot_rotations=False)",
-      "v1 = np.linalg.norm(v0, axis=1, keepdims=True)",
-      "v2 = v0 / v1",
-      "return v2"]
+    Gen.C06.normalsHeader = "def euler_angles_to_normals(angles)"
+    ∧ Gen.C06.normalsNormMode = "row"
+    ∧ Gen.C06.normalsSkeleton = ["P = visualize_angles(angles, plot_rotations=False)", "return <P> / <norm of P by row>"]
     ∧ Gen.C06.bodyVisAngles = ["def visualize_angles(angles, plot_rotations=True, color_map=None)",
       "v0 = srot.from_euler('zxz', angles=angles, degrees=True)",
       "v1 = visualize_rotations(v0, plot_rotations, color_map)",
@@ -107,27 +94,19 @@ theorem normals_expr_documented :
       "if plot_rotations: <collapsed: rebinds=[] exits=0>",
       "return v1"] := by decide
 
-/-- `normals_to_euler_angles`: DataFrame/ndarray dispatch (anything else raises), row-wise normalisation,
-θ = atan2(ρ, z), ψ = 90° + atan2(y, x), ψ := 0 only for x = y = 0, random φ, column order by `output_order` -/
+/-- `normals_to_euler_angles`, TRANSLATED: DataFrame → its x, y, z columns, ndarray → itself, anything else raises `UserInputError`;
+row-wise normalisation; θ = atan2(√(ux²+uy²), uz) and ψ = 90° + atan2(uy, ux), ψ := 0 exactly for ux = uy = 0, both in degrees, as terms
+the model evaluates; a random φ; the column order is `n2e_orders_documented` -/
 theorem n2e_expr_documented :
-    Gen.C06.bodyN2e = ["def normals_to_euler_angles(input_normals, output_order='zxz')",
-      "if isinstance(input_normals, pd.DataFrame):",
-      "| v0 = input_normals.loc[:, ['x', 'y', 'z']].values",
-      "elif isinstance(input_normals, np.ndarray):",
-      "| v0 = input_normals",
-      "else:",
-      "| raise UserInputError('The input_normals have to be either pandas dataFrame or numpy array')",
-      "v0 = v0 / np.linalg.norm(v0, axis=1)[:, np.newaxis]",
-      "v1 = np.degrees(np.arctan2(np.sqrt(v0[:, 0] ** 2 + v0[:, 1] ** 2), v0[:, 2]))",
-      "v2 = 90 + np.degrees(np.arctan2(v0[:, 1], v0[:, 0]))",
-      "v3 = np.where((v0[:, 0] == 0) & (v0[:, 1] == 0))",
-      "v2[v3] = 0",
-      "v4 = np.random.rand(v0.shape[0]) * 360",
-      "if output_order == 'zzx':",
-      "| v5 = np.column_stack((v4, v2, v1))",
-      "else:",
-      "| v5 = np.column_stack((v4, v1, v2))",
-      "return v5"] := by decide
+    Gen.C06.n2eHeader = "def normals_to_euler_angles(input_normals, output_order='zxz')"
+    ∧ Gen.C06.n2eInputs = [("pd.DataFrame", "<arg>.loc[:, ['x', 'y', 'z']].values"), ("np.ndarray", "<arg>"), ("*", "raise UserInputError")]
+    ∧ Gen.C06.n2eNormMode = "row"
+    ∧ Gen.C06.n2eThetaExpr = .deg (.atan2 (.sqrt (.add (.mul (.var "ux") (.var "ux")) (.mul (.var "uy") (.var "uy")))) (.var "uz"))
+    ∧ Gen.C06.n2ePsiExpr = .iteEq (.var "ux") (.lit 0 1)
+        (.iteEq (.var "uy") (.lit 0 1) (.lit 0 1) (.add (.lit 90 1) (.deg (.atan2 (.var "uy") (.var "ux")))))
+        (.add (.lit 90 1) (.deg (.atan2 (.var "uy") (.var "ux"))))
+    ∧ Gen.C06.n2eSkeleton = ["U = <S> / <norm of S by row>", "phi = np.random.rand(<U>.shape[0]) * 360",
+      "return np.column_stack(<columns by output_order>)"] := by decide
 
 /-- `compare_rotations` / `cone_inplane_distance` only forward to the three primitives; EVERY `return` of
 `compare_rotations` in order -/
@@ -144,7 +123,7 @@ theorem compare_expr_documented :
       "elif rotation_type == 'in_plane_distance':",
       "| return v2",
       "else:",
-      "| raise UserInputError(f'The rotation type {rotation_type} is not supported.')"]
+      "| raise UserInputError(<msg>)"]
     ∧ Gen.C06.bodyConeInplane = ["def cone_inplane_distance(input_rot1, input_rot2, convention='zxz', degrees=True, c_symmetry=1)",
       "if isinstance(input_rot1, np.ndarray):",
       "| v0 = srot.from_euler(convention, input_rot1, degrees=degrees)",
@@ -174,22 +153,23 @@ theorem n2e_orders_documented :
 theorem defaults_documented :
     Gen.C06.rotationTypeDefault = "all" ∧ Gen.C06.outputOrderDefault = "zxz"
     ∧ Gen.C06.bodyCompare.head? = some "def compare_rotations(angles1, angles2, c_symmetry=1, rotation_type='all')"
-    ∧ Gen.C06.bodyAngular.head? = some "def angular_distance(input_rot1, input_rot2, convention='zxz', degrees=True, c_symmetry=1)"
+    ∧ Gen.C06.angHeader = "def angular_distance(input_rot1, input_rot2, convention='zxz', degrees=True, c_symmetry=1)"
     ∧ Gen.C06.bodyInplane.head? = some "def inplane_distance(input_rot1, input_rot2, convention='zxz', degrees=True, c_symmetry=1)"
     ∧ Gen.C06.bodyConeInplane.head? = some "def cone_inplane_distance(input_rot1, input_rot2, convention='zxz', degrees=True, c_symmetry=1)"
-    ∧ Gen.C06.bodyN2e.head? = some "def normals_to_euler_angles(input_normals, output_order='zxz')"
+    ∧ Gen.C06.n2eHeader = "def normals_to_euler_angles(input_normals, output_order='zxz')"
     ∧ Gen.C06.bodyVisRot.head? = some "def visualize_rotations(rotations, plot_rotations=True, color_map=None, marker_size=20, alpha=1.0, radius=1.0)" := by decide
 
 /-! ### `compare_rotations`: every `rotation_type` returns the primitive of its name; anything else is rejected -/
 section compare
 variable {α : Type}
 
-/-- `rotation_type="all"` (also the default): the triple (angular, cone, in-plane) in this order -/
+/-- (anchor-level: an `rfl` unfolding of the regenerated table, whose content is `compare_branches_documented`) the model's
+`compareRotations`, run on that table, returns for `rotation_type="all"` — also the default — the triple (angular, cone, in-plane) in this order -/
 theorem compareRotations_all (v : Prims α) :
     compareRotations Gen.C06.compareBranches "all" v = some [v.ang, v.cone, v.inp]
     ∧ compareRotations Gen.C06.compareBranches Gen.C06.rotationTypeDefault v = some [v.ang, v.cone, v.inp] := ⟨rfl, rfl⟩
 
-/-- each single-value branch returns exactly the primitive it is named after -/
+/-- (anchor-level, `rfl` on the regenerated table) each single-value branch returns the primitive it is named after -/
 theorem compareRotations_single (v : Prims α) :
     compareRotations Gen.C06.compareBranches "angular_distance" v = some [v.ang]
     ∧ compareRotations Gen.C06.compareBranches "cone_distance" v = some [v.cone]
@@ -205,7 +185,8 @@ theorem compareRotations_unsupported (t : String) (v : Prims α)
   simp only [compareRotations, Gen.C06.compareBranches, List.find?,
     e "all" (Ne.symm h1), e "angular_distance" (Ne.symm h2), e "cone_distance" (Ne.symm h3), e "in_plane_distance" (Ne.symm h4)]
 
-/-- column order of `normals_to_euler_angles`: `"zzx"` gives (φ, ψ, θ); the default and every other string (φ, θ, ψ) -/
+/-- column order of `normals_to_euler_angles` on the regenerated table: the first two conjuncts are `rfl` anchors (`"zzx"` gives (φ, ψ, θ),
+the default (φ, θ, ψ)); the third is the quantified part: EVERY string other than `"zzx"` falls into the `else` branch (φ, θ, ψ) -/
 theorem n2eColumns_spec (o : String) :
     n2eColumns Gen.C06.n2eOrders "zzx" = ["phi", "psi", "theta"]
     ∧ n2eColumns Gen.C06.n2eOrders Gen.C06.outputOrderDefault = ["phi", "theta", "psi"]
@@ -272,8 +253,9 @@ theorem absDot_clamp {β : Type} [Field β] [LinearOrder β] [IsStrictOrderedRin
   have : |qdot p q| * |qdot p q| ≤ 1 := by rw [abs_mul_abs_self]; exact h
   nlinarith [abs_nonneg (qdot p q)]
 
-/-- the shape test: two batches of different size give `None`, equal sizes give one distance per pair, each the
-distance of that pair -/
+/-- the shape test OF THE MODEL (an unfolding of `angDistBatch`; what ties it to the source is the `exit:` line of `angSkeleton` in
+`ang_expr_documented` and the `mismatch` cases of the correspondence run): two batches of different size give `None`, equal sizes give
+one distance per pair, each the distance of that pair -/
 theorem angDistBatch_spec (ps qs : List (Q4 ℝ)) :
     (ps.length ≠ qs.length → angDistBatch (realLibm at2) ps qs = none)
     ∧ (ps.length = qs.length → ∃ ds, angDistBatch (realLibm at2) ps qs = some ds ∧ ds.length = ps.length
@@ -406,7 +388,10 @@ theorem inplane_range (tol p1 p2 : α) (h1 : -180 ≤ p1 ∧ p1 ≤ 180) (h2 : -
   · rename_i h
     exact ⟨abs_nonneg _, not_lt.1 h⟩
 
-/-- … and vanishes for equal orientations (equal first Euler angles) -/
+/-- … and is 0 for EQUAL FIRST EULER ANGLES (`|x − x|` folded). This is not yet "vanishes for equal orientations": the step from "the same
+orientation" to "the same φ read back by `as_euler`" is a probed library assumption (ASSUMPTIONS of `c06.py`), and φ may come back
+differing by rounding — the form of the clause that survives that is `inplane_le_of_close` (distance ≤ e + 2·tol for φ's e apart)
+together with `inplane_wrap` (+180 vs −180) -/
 theorem inplane_self (tol p : α) : inplane tol p p = 0 := by
   simp only [inplane, absv_eq_abs, sub_self, abs_zero]
   rw [if_neg (by norm_num)]
@@ -543,9 +528,9 @@ theorem n2e_zaxis (L : Libm α) (hL : SqrtSpec L) (n : V3 α) (hn : V3.normSq n 
     · ext <;> simp <;> field_simp
 
 /-- **normals of ANY length**: the normalised normal — and with it every angle `normals_to_euler_angles` returns — depends
-on the direction of the input only: scaling the normal by any `k > 0` changes nothing. (This is the clause binary64
-arithmetic cannot keep once `x² + y² + z²` leaves the range of normal doubles, |n| ≳ 1.3e154 or ≲ 1.5e-154: known
-finding C06-K1, where the code's `np.linalg.norm` overflows to `inf` or underflows to 0.) -/
+on the direction of the input only: scaling the normal by any `k > 0` changes nothing — over an ordered field. Binary64 is not one:
+`n2e_k1_overflow_witness` / `n2e_k1_underflow_witness` below show the same model, evaluated at `Float`, losing the direction of
+(1,2,2)·1e160 and (1,2,2)·1e-170 (known finding C06-K1). -/
 theorem n2e_scale_invariant (L : Libm α) (hL : SqrtSpec L) (n : V3 α) (hn : V3.normSq n ≠ 0) (k : α) (hk : 0 < k) :
     scale (V3.smul k n) (L.sqrt (V3.normSq (V3.smul k n))) = scale n (L.sqrt (V3.normSq n))
     ∧ n2eCS L (V3.smul k n) = n2eCS L n := by
@@ -678,6 +663,85 @@ theorem n2e_asis_counterexample :
   have := congrArg V3.x h
   simp [realLibm, scale, V3.normSq, V3.dot] at this
 end real2
+
+/-! ### the regenerated row-level formulas ARE the formulas of the theorems above
+
+`Gen.C06.angExpr`, `dist2Expr`, `n2eThetaExpr`, `n2ePsiExpr` and the two normalisation modes are what the translator extracted from the
+current source; the driver evaluates them (`evalE`, `normaliseBy`, `n2eBatchE`) at `Float`. The theorems below evaluate the SAME terms over ℝ
+and obtain the definitions every metric / normal theorem of this file is about — so those theorems are statements about what the code
+computes now, not about a hand-written copy. -/
+section translated
+variable (at2 : ℝ → ℝ → ℝ)
+
+/-- `angular_distance(...)[0]` as regenerated = `angDist` (range, symmetry, zero ⇔ equal, invariance, triangle, rotation angle) -/
+theorem angDistE_eq (p q : Q4 ℝ) :
+    angDistE Gen.C06.angExpr (realLibm at2) (fun n => (n : ℝ)) p q = angDist (realLibm at2) p q := by
+  simp [angDistE, evalE, Gen.C06.angExpr, angDist, angDistRad, absDot, absv, toDeg]
+
+/-- `angular_distance(...)[1]` as regenerated = `1 − (q1·q2)²`, set to 0 below 1e-7 -/
+theorem dist2E_eq (p q : Q4 ℝ) :
+    angDistE Gen.C06.dist2Expr (realLibm at2) (fun n => (n : ℝ)) p q
+      = if dist2 p q < 1 / 10000000 then 0 else dist2 p q := by
+  simp [angDistE, evalE, Gen.C06.dist2Expr, dist2]
+
+/-- the regenerated normalisation mode of `euler_angles_to_normals` (and of `normals_to_euler_angles`) is the row-wise one, for any
+number type: `normals_one_per_orientation`, `normals_rowwise_unit`, `normals_rowwise_is_zaxis` are about what the code does -/
+theorem normaliseBy_row {β : Type} [Add β] [Mul β] [Div β] [OfNat β 0] (L : Libm β) (pts : List (V3 β)) :
+    normaliseBy Gen.C06.normalsNormMode L pts = normalsRowwise L pts
+    ∧ normaliseBy Gen.C06.n2eNormMode L pts = normalsRowwise L pts := ⟨rfl, rfl⟩
+
+/-- `normals_to_euler_angles` as regenerated (row-wise normalisation, θ and ψ formulas) = `n2eAngles` on every row of a batch of
+ANY size: `n2eAngles_cos_sin` + `n2e_zaxis` are about what the code computes -/
+theorem n2eBatchE_eq (ns : List (V3 ℝ)) :
+    n2eBatchE Gen.C06.n2eThetaExpr Gen.C06.n2ePsiExpr Gen.C06.n2eNormMode (realLibm atan2R) (fun n => (n : ℝ)) ns
+      = ns.map (n2eAngles (realLibm atan2R)) := by
+  have hm : normaliseBy Gen.C06.n2eNormMode (realLibm atan2R) ns = normalsRowwise (realLibm atan2R) ns := rfl
+  simp only [n2eBatchE, hm, normalsRowwise, List.map_map]
+  apply List.map_congr_left
+  intro n _
+  simp only [Function.comp, evalE, Gen.C06.n2eThetaExpr, Gen.C06.n2ePsiExpr, n2eEnv, n2eAngles]
+  generalize scale n ((realLibm atan2R).sqrt (V3.normSq n)) = u
+  cases h1 : (u.x == (0 : ℝ)) <;> cases h2 : (u.y == (0 : ℝ)) <;> simp [h1, h2]
+
+/-- the regenerated input dispatch of `angular_distance`, for EVERY python type name: an ndarray is converted with
+`from_euler(convention, ·, degrees)`, every other type falls into the `else` branch and is used as it is (both arguments alike) -/
+theorem inputConversion_spec (t : String) :
+    Gen.C06.angInputs.length = 2
+    ∧ ∀ tb ∈ Gen.C06.angInputs,
+        inputConversion tb "np.ndarray" = some "srot.from_euler(convention, <arg>, degrees=degrees)"
+        ∧ (t ≠ "np.ndarray" → inputConversion tb t = some "<arg>") := by
+  refine ⟨rfl, ?_⟩
+  intro tb htb
+  simp only [Gen.C06.angInputs, List.mem_cons, List.not_mem_nil, or_false, or_self] at htb
+  subst htb
+  refine ⟨rfl, fun h => ?_⟩
+  have e : ("np.ndarray" == t) = false := by simpa using Ne.symm h
+  by_cases hs : t = "*"
+  · subst hs; rfl
+  · have e2 : ("*" == t) = false := by simpa using Ne.symm hs
+    simp only [inputConversion, List.find?, e, e2]
+    rfl
+end translated
+
+/-! ### known finding C06-K1, witnessed on the model at binary64 (kernel arithmetic on `Float`: `decide +kernel`)
+
+`normals_to_euler_angles` — code and model alike — first forms `x² + y² + z²`. For n = (1,2,2)·1e160 that sum is `+inf` in binary64, and
+every component divided by an infinite norm is 0: the direction is lost (θ = ψ = 0, the z-axis, instead of (1/3, 2/3, 2/3)). For
+n = (1,2,2)·1e-170 the sum underflows to 0 and the quotient is infinite. (`Float.sqrt` is opaque to the kernel; IEEE `sqrt(+inf) = +inf`
+and `sqrt(0) = 0`, so dividing by the squared length itself shows the same quotients.) Over an ordered field neither happens:
+`n2e_scale_invariant`. -/
+
+theorem n2e_k1_overflow_witness :
+    let n : V3 Float := ⟨Float.ofNat (10 ^ 160), 2 * Float.ofNat (10 ^ 160), 2 * Float.ofNat (10 ^ 160)⟩
+    (V3.normSq n).isInf = true
+    ∧ ((scale n (V3.normSq n)).x == 0 && (scale n (V3.normSq n)).y == 0 && (scale n (V3.normSq n)).z == 0) = true := by
+  decide +kernel
+
+theorem n2e_k1_underflow_witness :
+    let t : Float := Float.ofNat 1 / Float.ofNat (10 ^ 170)
+    let n : V3 Float := ⟨t, 2 * t, 2 * t⟩
+    (t == 0) = false ∧ (V3.normSq n == 0) = true ∧ (scale n (V3.normSq n)).z.isInf = true := by
+  decide +kernel
 
 /-! ### non-vacuity: the hypotheses of the theorems above are met by concrete non-trivial inputs -/
 
